@@ -527,6 +527,67 @@ theorem C08_shared_before_fork_counterexample : ¬ Inv (run init escapeSched) :=
   revert this
   decide
 
+/-! ### the marked chain must be the RAW parent chain
+
+`reach` (and the model's `acc`) follow `anc`, the raw parent chain — the chain the boundary-ignoring walks of the
+code follow (symbols.GetAnyScope, used by the ArgCheck opcode on every Ego function entry; InPackage; runtime info).
+With ego.runtime.deep.scope=true (profile default) the scope captured by a closure in a helper function has the
+private block tables of the helper's callers on that chain, behind the helper's scope boundary.  `goClosureSub` is
+NOT the code: it is `go` of a closure with a marking that keeps only the tables `keep` selects (for instance the
+chain a boundary-respecting Get walks, FindNextScope by FindNextScope).  Any such marking that leaves out one
+unshared table the launcher itself still reaches breaks the invariant — so Shared(true) can mark no less than the
+whole raw chain, and the harness reads the fork-time state along that chain (`fork` events). -/
+
+def goClosureSub (s : State) (t cap : Nat) (keep : Nat → Bool) : State :=
+  spawn (mark s ((s.anc cap).filter keep)) t [cap]
+
+/-- with `keep` = everything this is exactly what `step` does for `.goClosure` -/
+theorem goClosureSub_all (s : State) (t k x cap : Nat) (hl : (s.ctx t).live = true) (hc : (s.ctx t).cur = some x)
+    (hk : nth (s.ctx t).held k = some cap) :
+    step s t (.goClosure k) = goClosureSub s t cap (fun _ => true) := by
+  have hf : (s.anc cap).filter (fun _ => true) = s.anc cap := List.filter_eq_self.mpr (fun _ _ => rfl)
+  simp [step, hl, hc, hk, goClosureSub, hf]
+
+theorem C08_mark_subchain_breaks_inv (s : State) (t cap x : Nat) (keep : Nat → Bool)
+    (ht : t ≠ s.nctx) (hlive : (s.ctx t).live = true)
+    (hx : x ∈ s.anc cap) (hr : reach s (s.ctx t) x)
+    (hk : keep x = false) (hs : s.shared x = false) :
+    ¬ Inv (goClosureSub s t cap keep) := by
+  intro h
+  have h1 : ((goClosureSub s t cap keep).ctx t) = s.ctx t := by
+    simp [goClosureSub, spawn, mark, ht]
+  have h2 : ((goClosureSub s t cap keep).ctx s.nctx) = ⟨true, none, [], [cap], t⟩ := by
+    simp [goClosureSub, spawn, mark]
+  have ha : (goClosureSub s t cap keep).anc = s.anc := rfl
+  have hsh : (goClosureSub s t cap keep).shared x = false := by
+    simp [goClosureSub, spawn, mark, hs, hk]
+  have := h t s.nctx x ht (by rw [h1]; exact hlive) (by rw [h2])
+    (by rw [h1]; obtain ⟨r, hr1, hr2⟩ := hr; exact ⟨r, hr1, by rw [ha]; exact hr2⟩)
+    (by rw [h2]; exact ⟨cap, by simp [roots], by rw [ha]; exact hx⟩)
+  rw [hsh] at this
+  exact Bool.false_ne_true this
+
+/-- main (thread 0, file table 1) opens a block (table 2) and calls a helper from it (frame table 3, a scope
+    boundary whose parent is the caller's block 2); the helper opens a block (4) and creates a closure there -/
+def helperSched : List (Nat × Op) := [(0, .push 0), (0, .call 0), (0, .push 0), (0, .capture)]
+
+/-- COUNTEREXAMPLE for the sub-chain marking: the scope chain of table 4 seen by a boundary-respecting Get is
+    4, 3, then past the boundary to 1, 0 — it skips the caller's block 2.  Marking only that chain at the `go`
+    leaves table 2 reachable from the launcher (saved in its call frame) and from the new goroutine (raw chain
+    of the captured scope) and NOT shared. -/
+theorem C08_mark_subchain_counterexample :
+    ¬ Inv (goClosureSub (run init helperSched) 0 4 (fun x => x != 2)) :=
+  C08_mark_subchain_breaks_inv (run init helperSched) 0 4 2 _ (by decide) (by decide) (by decide)
+    ⟨2, by decide, by decide⟩ (by decide) (by decide)
+
+/-- non-vacuity / contrast: the code's marking (the whole raw chain) leaves the same state inside the invariant,
+    and table 2 is then shared -/
+example : (run init helperSched).anc 4 = [4, 3, 2, 1, 0] := by decide
+example : Inv (run init (helperSched ++ [(0, .goClosure 0)])) :=
+  C08_shared_before_fork_partial _ (by decide)
+example : (run init (helperSched ++ [(0, .goClosure 0)])).shared 2 = true := by decide
+example : (goClosureSub (run init helperSched) 0 4 (fun x => x != 2)).shared 2 = false := by decide
+
 /-- RACE FREEDOM of the model: in any state reachable without escaping closures, when thread t performs a
     Get/Set that reaches table e.table while another LIVE context can reach the same table, the access is
     made under that table's lock.  Hence of any two accesses (by different threads) to a table that both
